@@ -181,6 +181,9 @@ func ParseSPSNALUnit(data []byte, parseVUIBeyondAspectRatio bool) (*SPS, error) 
 		sps.OffsetForNonRefPic = reader.ReadExpGolomb()
 		sps.OffsetForTopToBottomField = reader.ReadExpGolomb()
 		numRefFramesInPicOrderCntCycle := reader.ReadExpGolomb()
+		if numRefFramesInPicOrderCntCycle > 255 { // range 0..255 (7.4.2.1.1); the value sizes an allocation
+			return nil, fmt.Errorf("invalid num_ref_frames_in_pic_order_cnt_cycle: %d", numRefFramesInPicOrderCntCycle)
+		}
 		sps.RefFramesInPicOrderCntCycle = make([]uint, numRefFramesInPicOrderCntCycle)
 		for i := 0; i < int(numRefFramesInPicOrderCntCycle); i++ {
 			sps.RefFramesInPicOrderCntCycle[i] = reader.ReadExpGolomb()
@@ -346,6 +349,10 @@ func parseVUI(reader *bits.EBSPReader, parseVUIBeyondAspectRatio bool) *VUIParam
 func parseHrdParameters(r *bits.EBSPReader) *HrdParameters {
 	hp := &HrdParameters{}
 	hp.CpbCountMinus1 = r.ReadExpGolomb()
+	if hp.CpbCountMinus1 > 31 { // range 0..31 (E.2.2); the value drives the loop below
+		r.SetError(fmt.Errorf("invalid cpb_cnt_minus1: %d", hp.CpbCountMinus1))
+		return hp
+	}
 
 	hp.BitRateScale = r.Read(4)
 	hp.CpbSizeScale = r.Read(4)
